@@ -79,8 +79,13 @@ type Client struct {
 }
 
 // New wraps a connection and starts the reader and writer goroutines.
-func New(name string, conn net.Conn) *Client {
-	c := &Client{Name: name, conn: conn, AutoAck: true, wdone: make(chan struct{}), rdone: make(chan struct{})}
+func New(name string, conn net.Conn) *Client { return newClient(name, conn, true) }
+
+// NewManual is New without automatic acknowledgements.
+func NewManual(name string, conn net.Conn) *Client { return newClient(name, conn, false) }
+
+func newClient(name string, conn net.Conn, autoAck bool) *Client {
+	c := &Client{Name: name, conn: conn, AutoAck: autoAck, wdone: make(chan struct{}), rdone: make(chan struct{})}
 	c.cond = sync.NewCond(&c.mu)
 	c.wcond = sync.NewCond(&c.wmu)
 	go c.reader()
